@@ -150,6 +150,7 @@ def write_replay(profile, res, ops, path=None, extra=None):
     if path is None:
         path = os.path.join(REPLAYS, "%s-%d.json" % (profile.prop, res["seed"]))
     doc = {"property": profile.prop, "profile": profile.name, "seed": res["seed"], "knobs": res["knobs"],
+           "masks": list(profile.masks),
            "ops": ops, "expected_signature": res["violation"]["signature"],
            "message": res["violation"]["msg"]}
     if extra:
@@ -173,7 +174,12 @@ def _json_default(o):
 def replay_file(path, profiles):
     doc = json.load(open(path))
     prof = profiles[doc["profile"]]
-    r = run_replay(prof, doc["seed"], doc["knobs"], doc["ops"])
+    saved = prof.masks
+    prof.masks = list(doc.get("masks", []))
+    try:
+        r = run_replay(prof, doc["seed"], doc["knobs"], doc["ops"])
+    finally:
+        prof.masks = saved
     return doc, r
 
 
